@@ -147,7 +147,9 @@ PickClauses(pre, ev) ==
                      \/ (ev.kind = "reissue" /\ post.locked = pre.locked),
     P_Reissue   |-> IF ev.kind = "reissue" THEN pending # <<>> /\ Head(pending) = sig
                     ELSE (ev.kind = "init" => pending = <<>>),
-    P_StepsLeft |-> IF ev.kind = "loop" THEN pre.cstep + Workers <= pre.tsteps ELSE pre.cstep < pre.tsteps,
+    \* never more jobs in flight than steps left (initial submissions of a run restarted close to its end included)
+    P_StepsLeft |-> IF ev.kind = "loop" THEN pre.cstep + Workers <= pre.tsteps
+                    ELSE pre.cstep + Cardinality(BusyPins) < pre.tsteps,
     P_NotTooMany |-> seg[3] < Workers + seg[2] ]
 
 (* Complete *)
@@ -259,7 +261,7 @@ FinishClauses(pre, ev) ==
                         /\ HasKey(ev.rec.frac, p) /\ p \in DOMAIN accF
                         /\ Close(Lookup(ev.rec.frac, p), accF[p], seg[4] + 3),
     \* C17: exactly the requested number of moves, nothing left in flight
-    F_StepsExact |-> (pre.tsteps - seg[1] >= Workers) =>
+    F_StepsExact |-> (pre.tsteps >= Workers /\ pre.tsteps >= seg[1]) =>
                         /\ seg[2] = pre.tsteps - seg[1] /\ pre.cstep = pre.tsteps
                         /\ BusyPins = {} /\ pre.locked = <<>> /\ Lk(pre) = {}
                         /\ seg[3] = seg[2],
